@@ -22,8 +22,10 @@
            W <id> <c> <w> <h> <p> <type>      what the mock camera reported for frame id (its hardware_frame_id)
            BASE <addr % 8>, END / DEADLOCK / STEPLIMIT, SCHEDULE ...
    Walks are done HERE with memcpy (not with frame_iterator): the line shows what the bytes are. */
+#include <signal.h>
 #include <stdio.h>
 #include <stdlib.h>
+#include <unistd.h>
 #include "platform.h"
 #include "vsched.h"
 #include "runtime/channel.h"
@@ -175,6 +177,8 @@ static void client_thread(void* arg)
 }
 
 static int on_stuck(const char* why) { printf("STUCK %s\n", why); return 0; }
+/* watchdog: a loop without scheduling points that never ends (a walk that does not advance) */
+static void on_alarm(int sig) { (void)sig; fflush(stdout); (void)!write(1, "\nHANG\n", 6); _exit(9); }
 
 int main(void)
 {
@@ -184,7 +188,9 @@ int main(void)
     long long cap = 4096, fcap = 4096, frames = 8, seed = 1, window = 0;
     double delay = 0;
     int mode = 0;
-    setvbuf(stdout, 0, _IOFBF, 1 << 16);
+    setvbuf(stdout, 0, _IOLBF, 1 << 16);
+    signal(SIGALRM, on_alarm);
+    alarm(20);
     while (fgets(line, sizeof line, stdin)) {
         long long a[6];
         if (sscanf(line, "CAP %lld", &cap) == 1) continue;
